@@ -122,6 +122,7 @@ type world struct {
 	serveDone chan struct{}
 	host      string  // authority of the request URLs
 	org       *origin // nil: stub round tripper
+	sbuf      int     // KiB of socket buffer on both ends of the client connections (0 = system default)
 }
 
 // cplan says where (if anywhere) the k-th connection is to be parked.
@@ -180,6 +181,7 @@ type sconn struct {
 	wseq      int    // responses started
 	wchunked  bool   // the current response is chunked: it ends with the last-chunk "0\r\n\r\n"
 	wtail     []byte // last bytes written of a chunked response
+	wdone     int32  // responses completely written
 }
 
 func (c *sconn) started() int {
@@ -308,6 +310,7 @@ func (c *sconn) Write(p []byte) (int, error) {
 		c.wpending = 0
 	}
 	if err == nil && c.wpending == 0 {
+		atomic.AddInt32(&c.wdone, 1)
 		c.w.log.add("we:%d", c.k)
 	}
 	return written, err
@@ -323,6 +326,7 @@ func (c *sconn) chunkedProgress(b []byte) {
 	if bytes.Equal(c.wtail, []byte("\r\n0\r\n\r\n")) {
 		c.wchunked = false
 		c.wtail = nil
+		atomic.AddInt32(&c.wdone, 1)
 		c.w.log.add("we:%d", c.k)
 	}
 }
@@ -341,6 +345,9 @@ func (l *wlistener) Accept() (net.Conn, error) {
 	}
 	w := l.w
 	w.mu.Lock()
+	if tc, ok := c.(*net.TCPConn); ok && w.sbuf > 0 {
+		tc.SetWriteBuffer(w.sbuf << 10) // a small send buffer: a client that does not read stalls the writer early
+	}
 	k := len(w.byIdx)
 	sc := &sconn{Conn: c, w: w, k: k, closed: make(chan struct{})}
 	if k < len(w.plans) {
@@ -551,7 +558,7 @@ func (o *origin) handle(c net.Conn) {
 			waitCh(pl.gate, 30*time.Second)
 		}
 		half := len(payload) / 2
-		c.SetWriteDeadline(time.Now().Add(30 * time.Second))
+		c.SetWriteDeadline(time.Now().Add(60 * time.Second))
 		if _, err := c.Write(append([]byte(head+"\r\n"), payload[:half]...)); err != nil {
 			return
 		}
@@ -563,7 +570,7 @@ func (o *origin) handle(c net.Conn) {
 			pl.oarrive()
 			waitCh(pl.ogate, 30*time.Second)
 		}
-		c.SetWriteDeadline(time.Now().Add(30 * time.Second))
+		c.SetWriteDeadline(time.Now().Add(60 * time.Second))
 		if _, err := c.Write(payload[half:]); err != nil {
 			return
 		}
@@ -631,6 +638,11 @@ type client struct {
 	seq   int
 	resps int32
 	eof   chan struct{}
+	// a client that stops reading: the reader does not pick up response number holdSeq (beyond the first
+	// bytes) until hold is closed
+	hold    chan struct{}
+	holdSeq int
+	honce   sync.Once
 }
 
 func (w *world) dial() (*client, error) {
@@ -638,7 +650,10 @@ func (w *world) dial() (*client, error) {
 	if err != nil {
 		return nil, err
 	}
-	return &client{w: w, c: c, addr: c.LocalAddr().String(), k: -1, eof: make(chan struct{})}, nil
+	if tc, ok := c.(*net.TCPConn); ok && w.sbuf > 0 {
+		tc.SetReadBuffer(w.sbuf << 10)
+	}
+	return &client{w: w, c: c, addr: c.LocalAddr().String(), k: -1, eof: make(chan struct{}), holdSeq: -1}, nil
 }
 
 // evKey is the connection index if known, else a placeholder resolved when the log is rendered.
@@ -647,6 +662,10 @@ func (cl *client) key() string {
 		return strconv.Itoa(cl.k)
 	}
 	return "@" + cl.addr
+}
+
+func (cl *client) resume() {
+	cl.honce.Do(func() { close(cl.hold) })
 }
 
 func (cl *client) reader() {
@@ -660,6 +679,10 @@ func (cl *client) reader() {
 			}
 			cl.w.log.add("eof:%s", cl.key())
 			return
+		}
+		if cl.hold != nil && int(atomic.LoadInt32(&cl.resps)) == cl.holdSeq {
+			waitCh(cl.hold, 40*time.Second) // busy elsewhere: the response stays in the socket buffers and beyond
+			cl.c.SetReadDeadline(time.Now().Add(40 * time.Second))
 		}
 		res, err := http.ReadResponse(br, nil)
 		if err != nil {
@@ -751,6 +774,20 @@ type scenario struct {
 	real  bool // t=1: real default transport + raw origin
 	chunk bool // te=1: the origin answers chunked
 	delay int  // d: µs between "shutdown observable" and the first release
+	stall int  // st: ms during which the clients of the parked exchanges do not read (after the releases)
+	sbuf  int  // sb: KiB of socket buffer on both ends of the client connections (0 = system default)
+}
+
+// stalls: is connection k one whose client stops reading while shutdown drains it?
+func (sc *scenario) stalls(k int) bool {
+	if sc.stall <= 0 {
+		return false
+	}
+	switch sc.pts[k] {
+	case "reqmod", "rt", "resmod", "write", "rbody", "wbody":
+		return true
+	}
+	return false
 }
 
 var points = []string{"idle", "head", "reqmod", "rt", "resmod", "write"}
@@ -806,10 +843,22 @@ func parseScn(op string) (*scenario, bool) {
 			sc.order = v
 		case "b":
 			n, err := strconv.Atoi(kv[1])
-			if err != nil || n < 0 || n > 1<<20 {
+			if err != nil || n < 0 || n > 1<<26 {
 				return nil, false
 			}
 			sc.body = n
+		case "st":
+			n, err := strconv.Atoi(kv[1])
+			if err != nil || n < 0 || n > 20000 {
+				return nil, false
+			}
+			sc.stall = n
+		case "sb":
+			n, err := strconv.Atoi(kv[1])
+			if err != nil || n < 0 || n > 4096 {
+				return nil, false
+			}
+			sc.sbuf = n
 		case "t", "te":
 			if kv[1] != "0" && kv[1] != "1" {
 				return nil, false
@@ -906,9 +955,15 @@ func runScenario(sc *scenario) (trace []string, v verdict, counted map[int]bool)
 		v.set("c07:harness", "listen: %v", err)
 		return nil, v, nil
 	}
+	w.sbuf = sc.sbuf
 	counted = map[int]bool{}
 	clients := make([]*client, n)
 	defer func() {
+		for _, cl := range clients {
+			if cl != nil && cl.hold != nil {
+				cl.resume()
+			}
+		}
 		for _, pl := range plans {
 			pl.release()
 			pl.orelease()
@@ -948,6 +1003,10 @@ func runScenario(sc *scenario) (trace []string, v verdict, counted map[int]bool)
 			return false
 		}
 		cl.k = k
+		if sc.stalls(k) {
+			cl.hold = make(chan struct{})
+			cl.holdSeq = sc.x[k]
+		}
 		go cl.reader()
 		return true
 	}
@@ -1065,6 +1124,7 @@ func runScenario(sc *scenario) (trace []string, v verdict, counted map[int]bool)
 	}
 
 	// 3. releases, in the given order
+	var stalled []int
 	for _, k := range sc.order {
 		switch sc.pts[k] {
 		case "idle", "late":
@@ -1093,8 +1153,35 @@ func runScenario(sc *scenario) (trace []string, v verdict, counted map[int]bool)
 				w.log.add("open:%d", k)
 				plans[k].orelease()
 			}
+			if sc.stalls(k) {
+				stalled = append(stalled, k) // its client is not reading: it is drained after the stall
+				continue
+			}
 			if !waitCh(w.byIdx[k].closed, stepDeadline) {
 				v.set("c07:conn-not-closed", "connection %d (parked in %s) was not closed within %v of its release during shutdown", k, sc.pts[k], stepDeadline)
+			}
+		}
+	}
+
+	// 3b. the clients of the stalled connections have not been reading for sc.stall ms (longer than any
+	// deadline a proxy could plausibly put on a draining connection); now they read everything
+	if len(stalled) > 0 {
+		time.Sleep(time.Duration(sc.stall) * time.Millisecond)
+		for _, k := range stalled {
+			// was the writer really blocked (response larger than what the socket buffers absorb)?
+			if int(atomic.LoadInt32(&w.byIdx[k].wdone)) <= sc.x[k] {
+				core.Count("stall:writer-blocked")
+			} else {
+				core.Count("stall:absorbed-by-socket-buffers")
+			}
+		}
+		w.log.add("resume")
+		for _, k := range stalled {
+			clients[k].resume()
+		}
+		for _, k := range stalled {
+			if !waitCh(w.byIdx[k].closed, 5*stepDeadline) {
+				v.set("c07:conn-not-closed", "connection %d (parked in %s, client stalled %d ms) was not closed within %v of its client reading again", k, sc.pts[k], sc.stall, 5*stepDeadline)
 			}
 		}
 	}
@@ -1278,7 +1365,7 @@ func render(trace []string) string {
 	for _, t := range trace {
 		e := parseEv(t)
 		switch e.kind {
-		case "open", "head", "bad": // not part of the model's alphabet (bad: oracle only)
+		case "open", "head", "bad", "resume": // not part of the model's alphabet (bad: oracle only)
 			continue
 		}
 		if strings.Contains(t, "@") { // client event of a connection that was never accepted
@@ -1670,6 +1757,52 @@ func realGrid(emit func(ops []string), full bool) {
 	}
 }
 
+// stallScn: slow clients during the drain phase. 1..3 connections parked inside an exchange (so that the
+// shutdown falls before, at or after the close decision), a response much larger than the socket buffers,
+// and clients that do not read for `stall` ms after the exchanges were released — longer than any deadline
+// a proxy could plausibly put on a connection it is draining. All stalled connections of one scenario
+// stall concurrently, so a scenario costs one stall.
+func stallScn(r *core.Rand, stall int, real bool, defaultBufs bool) string {
+	n := r.Range(1, 3)
+	if defaultBufs {
+		n = r.Range(1, 2) // 48 MiB each
+	}
+	pool := []string{"reqmod", "rt", "resmod", "write"}
+	if real {
+		pool = []string{"rt", "wbody", "reqmod", "resmod", "write"}
+	}
+	pts := make([]string, n)
+	x, q, s := make([]int, n), make([]int, n), make([]int, n)
+	// shutdown before the close decision on at least one connection
+	for i := range pts {
+		pts[i] = pool[r.Intn(len(pool))]
+		if r.Chance(1, 3) {
+			x[i] = 1
+		}
+		if r.Chance(1, 6) {
+			q[i] = 1
+		}
+		if r.Chance(1, 6) {
+			s[i] = 1
+		}
+	}
+	pts[r.Intn(n)] = r.Pick("reqmod", "rt", "resmod")
+	ps := perms(n)
+	body := []int{2 << 20, 4 << 20, 8 << 20}[r.Intn(3)]
+	sb := []int{64, 128, 256}[r.Intn(3)]
+	if defaultBufs {
+		body, sb = 48<<20, 0
+		for i := range x {
+			x[i] = 0
+		}
+	}
+	op := scnOp(pts, x, q, s, ps[r.Intn(len(ps))], body)
+	if real {
+		op += fmt.Sprintf(" t=1 te=%d d=%d", r.Intn(2), []int{0, 500, 2000}[r.Intn(3)])
+	}
+	return op + fmt.Sprintf(" st=%d sb=%d", stall, sb)
+}
+
 func (P) Gen(r *core.Rand, tier string, emit func(ops []string)) {
 	zeros := func(n int) []int { return make([]int, n) }
 	if tier == "thorough" {
@@ -1715,6 +1848,12 @@ func (P) Gen(r *core.Rand, tier string, emit func(ops []string)) {
 		for i := 0; i < 200; i++ {
 			emit([]string{fmt.Sprintf("race c=%d d=%d", r.Pick2(r.Range(1, 6), r.Range(7, 32)), r.Pick2(0, r.Range(0, 3000)))})
 		}
+		// slow clients: 8 scenarios, stalls of 6.5 .. 15 s, stub and real transport, small and default socket buffers
+		for i, st := range []int{6500, 7000, 8000, 9000, 11000, 15000} {
+			emit([]string{stallScn(r, st, i%2 == 1, false)})
+		}
+		emit([]string{stallScn(r, 7000, false, true)})
+		emit([]string{stallScn(r, 7000, true, true)})
 		return
 	}
 	// quick: exhaustive for 1 and 2 connections (6 + 36·2 scenarios), then a seeded sample
@@ -1743,4 +1882,6 @@ func (P) Gen(r *core.Rand, tier string, emit func(ops []string)) {
 	for i := 0; i < 30; i++ {
 		emit([]string{fmt.Sprintf("race c=%d d=%d", r.Pick2(r.Range(1, 6), r.Range(7, 24)), r.Pick2(0, r.Range(0, 2000)))})
 	}
+	// one slow-client scenario (≈ 7–9 s): clients stalled during the drain phase, bodies ≫ socket buffers
+	emit([]string{stallScn(r, r.Range(6500, 8500), r.Chance(1, 2), false)})
 }
